@@ -23,7 +23,10 @@ class scipy_integrate_time_course:
         fresh(result),
         implies(
             has_type(result.value, "TimeCourse"),
-            v_last(as_type(result.value.time, "Array")) == old(v_last(time_points)) and real(self.t0) == old(v_last(time_points)),
+            v_last(as_type(result.value.time, "Array")) == old(v_last(time_points))
+            and real(self.t0) == old(v_last(time_points))
+            and fresh(result.value)
+            and fresh(result.value.time),
         ),
         implies(not has_type(result.value, "TimeCourse"), has_type(result.value, "IntegrationFailure") and self.t0 is old(self.t0)),
     ]
@@ -39,7 +42,10 @@ class scipy_integrate:
         fresh(result),
         implies(
             has_type(result.value, "TimeCourse"),
-            v_last(as_type(result.value.time, "Array")) == t_end and real(self.t0) == t_end,
+            v_last(as_type(result.value.time, "Array")) == t_end
+            and real(self.t0) == t_end
+            and fresh(result.value)
+            and fresh(result.value.time),
         ),
         implies(not has_type(result.value, "TimeCourse"), has_type(result.value, "IntegrationFailure") and self.t0 is old(self.t0)),
     ]
